@@ -89,6 +89,7 @@ func (e *Exec) runPath(pkg *ssa.Package, fn *ssa.Function, prefix []Decision) (r
 	e.fsTrace = nil
 	e.fsSeq = 0
 	e.fsModelOn = false
+	e.fsStatFromWalk = false
 	e.fsFaultBudget = -1
 	e.stubSeq = 0
 	e.callerLine = nil
